@@ -63,6 +63,10 @@ def random_enc_cases(rnd, n):
 def directed_enc_cases():
     M, I, S, B, K, F, Bn, Lat = g.M, g.I, g.S, g.B, g.K, g.F, g.Bn, g.Lat
     vs = [M('/a', [S(s)]) for s in g.STRS] + [M(a, []) for a in g.ADDRS]
+    # non-ASCII addresses at every depth: top level, completion message, bundle element, nested bundle
+    for a in [x for x in g.ADDRS if not x.isascii()]:
+        vs += [M(a, [I(1), S('x')]), M('/s_new', [S('x'), M(a, [I(1)])]), M('/a', [M('/b', [M(a, [])])]),
+               Bn(Lat(0), [M(a, [I(1)]), M('/b', [])]), Bn(Lat(0), [Bn(Lat(1), [M(a, [S('ñ')])])])]
     vs += [M('/a', [B(bytes(range(1, n + 1)), py)]) for n in range(0, 10) for py in (None, 'bytearray', 'memoryview')]
     vs += [M('/a', [I(n)]) for n in g.INTS + g.BIGINTS] + [M('/a', [F(x)]) for x in g.FLOATS + [1e39, -1e39, float('nan')]]
     vs += [M('/a', [K(t)]) for t in 'TFNE'] + [M('/a', [{'t': 'x', 'py': p}]) for p in
@@ -106,13 +110,17 @@ def size_cases(rnd, n):
     return out
 
 
+NONASCII = [False]      # set while generating cases whose addresses carry non-ASCII text
+
+
 def el(k, n, completion=False):
     """bundle element number k (the id travels in the address) carrying a blob of n bytes (0: no blob) and,
-    optionally, a completion message (nested list -> blob)"""
+    optionally, a completion message (nested list -> blob).  With NONASCII the address is '/ñ' + 5 digits: 7
+    characters but 8 UTF-8 bytes, i.e. 12 bytes on the wire where a character count would say 8."""
     args = [{'t': 'b', 'z': n}] if n else []
     if completion:
-        args.append(g.M('/b_query', [g.I(k), g.S('ñ' * (k % 5))]))
-    return g.M('/%07d' % k, args)
+        args.append(g.M('/b_ñ' if NONASCII[0] else '/b_query', [g.I(k), g.S('ñ' * (k % 5))]))
+    return g.M(('/ñ%05d' if NONASCII[0] else '/%07d') % k, args)
 
 
 def wrap(k, n, kind, completion=False):
@@ -133,7 +141,8 @@ def wrap(k, n, kind, completion=False):
 def clump_cases(rnd, nrand):
     cs = []
 
-    def add(site, blobs, lat, src, completion=False, kinds='m'):
+    def add(site, blobs, lat, src, completion=False, kinds='m', nonascii=False):
+        NONASCII[0] = nonascii
         cs.append(dict(kind='clump', site=site, lat=lat, src=src,
                        els=[wrap(i + 1, n, kinds[i % len(kinds)], completion and i % 2 == 0) for i, n in enumerate(blobs)]))
     for site in ('clumped', 'sync'):
@@ -144,6 +153,14 @@ def clump_cases(rnd, nrand):
         add(site, [600] * 110, 0.0, 'directed', kinds='mbBn')
         add(site, [30000, 30000, 30001], 0.5, 'directed', kinds='bnm')
         add(site, [0] * 6, None, 'directed', kinds='bBn')
+        # non-ASCII text in the element addresses (and in their completion messages): sized exactly or refused
+        add(site, [600] * 110, 0.2, 'directed', nonascii=True)
+        add(site, [80] * 700, None, 'directed', kinds='mb', nonascii=True)
+        add(site, [590] * 110, 0.0, 'directed', completion=True, kinds='mbBn', nonascii=True)
+        for n in range(630, 646, 3):
+            add(site, [n] * 99, None, 'sweep', nonascii=True)
+        for b in range(65340, 65400, 4):
+            add(site, [b, 0, 0, 0], None, 'sweep', nonascii=True)
         for n in range(600, 616, 2):
             add(site, [n] * 99, None, 'sweep', kinds='b')
             add(site, [n] * 99, 0.2, 'sweep', kinds='Bmn', completion=True)
@@ -183,7 +200,9 @@ def clump_cases(rnd, nrand):
             per = (LIMIT + rnd.randint(-400, 400)) // n - 24
             blobs = [max(0, per + rnd.randint(-3, 3)) for _ in range(n)]
         kinds = rnd.choice(['m', 'm', 'b', 'n', 'mb', 'mbBn', 'Bm', ''.join(rnd.choice('mbBn') for _ in range(7))])
-        add(site, blobs, rnd.choice([None, 0.0, 0.2]), 'random', completion=rnd.random() < 0.3, kinds=kinds)
+        add(site, blobs, rnd.choice([None, 0.0, 0.2]), 'random', completion=rnd.random() < 0.3, kinds=kinds,
+            nonascii=rnd.random() < 0.25)
+    NONASCII[0] = False
     return cs
 
 
@@ -198,7 +217,8 @@ def dsend_cases(thorough=False):
     direct = [g.K('N'), g.M('/s_new', [g.S('x'), g.I(1001)]), g.M('/s_new', [g.S('ñññññññ'), g.I(1001)]),
               g.M('/s_new', [g.S('default'), g.I(-1), g.B(b'12345'), g.M('/n_set', [g.I(1000), g.S('freq'), g.F(440.0)])]),
               g.M('/b_allocRead', [g.I(0), g.S('ü' * 200), g.M('/b_query', [g.I(0)])]),
-              g.Bn(g.Lat(0.5), [g.M('/s_new', [g.S('x')])])]
+              g.Bn(g.Lat(0.5), [g.M('/s_new', [g.S('x')])]),
+              g.M('/ñu', [g.I(1)]), g.M('/s_new', [g.S('x'), g.M('/señal/ñ', [g.I(2)])])]      # non-ASCII addresses: sized or refused
     forms = direct + [Fn(v) for v in direct] + [Fn(Fn(g.K('N')))]
     out = []
     for cm in forms:
@@ -254,7 +274,7 @@ def signature(c, why):
         if why == 'NotRefused':
             return 'enc:NotRefused:' + '+'.join(sorted(x for x in f if x in g.BAD) or ['other'])
         if why == 'PredBelow':
-            return 'size:PredBelow:' + '+'.join(sorted(x for x in f if x in ('nonascii-string', 'blob-len-not-multiple-of-4')) or ['other'])
+            return 'size:PredBelow:' + '+'.join(sorted(x for x in f if x in ('nonascii-string', 'nonascii-address', 'blob-len-not-multiple-of-4')) or ['other'])
         return '%s:%s' % (c['kind'], why)
     if c['kind'] == 'clump':
         return 'clump:%s:%s' % (c['site'], why)
